@@ -25,3 +25,7 @@ add("C02", "SEQ", "model_checking", "explicit-state BFS over push/delete/restart
 add("C04", "SEQ", "model_checking", "explicit-state BFS (bounded depth) applying a push matrix in every reachable repository state, differential oracle around refusals",
     "A matrix of 14 manifest bodies x 10 reference/parameter shapes is applied in every repository state reachable within the depth bound on both stores; a push is acknowledged iff the model predicate (valid reference, supported type consistent with the body, parses, all references present in this repository) holds, a refusal must be a 4xx and the complete read transcript before and after it must be equal.",
     TRUSTED, "DESIGN.md section 4 C04")
+
+add("C08", "SEQ", "model_checking", "explicit-state BFS over session histories on the implementation (bounded depth) with virtual time driving the real cache timers",
+    "All histories up to the stated depth of POST / PATCH / GET / PUT / DELETE on up to three sessions with correct, stale, future, malformed and absent offsets and state tokens, session ids used through another repository, expiry (virtual clock past the grace period, real cache timer) and eviction (POST beyond RepoUploadMax in {1,2,3}, real pruneCount goroutine) are explored on both stores against a byte-exact session model; residue (temp files, partial blobs, ended ids) is checked in every state. The schedule part (expiry/eviction racing with a request) is explored by the SCHED scenarios of C12/C20.",
+    TRUSTED, "DESIGN.md section 4 C08")
